@@ -486,6 +486,29 @@ pub fn family_single(level: u8) -> Vec<RuleSpec> {
         "n",
         map(vec![e("x", map(vec![e("z", st("a"))]))]),
     )])));
+    for inner in [
+        map(vec![e("not(x)", st("a"))]),
+        map(vec![e("not(x)", st("a")), e("y", st("b"))]),
+        map(vec![e("all(x)", list(vec![st("*a*"), st("*b*")]))]),
+        map(vec![e("of(x, 0)", list(vec![st("a"), st("b")]))]),
+        map(vec![e("int(x)", int(1))]),
+        map(vec![e("x", null())]),
+    ] {
+        out.push(RuleSpec::one(Body::Map(vec![e("n", inner.clone())])));
+        out.push(RuleSpec::one(Body::Seq(vec![vec![e("n", inner.clone())], vec![e("f", st("a"))]])));
+    }
+    // every single-identifier rule once more under a negation and under none-of
+    let plain = out.clone();
+    for (i, sp) in plain.into_iter().enumerate() {
+        let mut neg = sp.clone();
+        neg.cond = "not A".into();
+        out.push(neg);
+        if i % 4 == 0 {
+            let mut none = sp;
+            none.cond = "of(A, 0)".into();
+            out.push(none);
+        }
+    }
     out
 }
 
@@ -645,13 +668,13 @@ pub fn body_pool(level: u8) -> Vec<Body> {
     let p = entry_pool(0);
     let mut v = vec![
         Body::Map(vec![p[0].clone()]),                  // f: a
-        Body::Map(vec![p[1].clone()]),                  // f: a*
-        Body::Map(vec![p[6].clone()]),                  // g: *a*
         Body::Map(vec![p[11].clone()]),                 // n: {x: a}
+        Body::Map(vec![p[12].clone()]),                 // n: {y: b}
+        Body::Map(vec![p[6].clone()]),                  // g: *a*
+        Body::Map(vec![p[1].clone()]),                  // f: a*
         Body::Map(vec![p[2].clone(), p[5].clone()]),    // f: *b, g: x
         Body::Seq(vec![vec![p[0].clone()], vec![p[5].clone()]]), // [f:a, g:x]
         Body::Map(vec![p[8].clone()]),                  // f: 1
-        Body::Map(vec![p[12].clone()]),                 // n: {y: b}
     ];
     if level >= 1 {
         v.extend(vec![
@@ -901,33 +924,63 @@ pub fn family_castconds(level: u8) -> Vec<RuleSpec> {
         "({0} and {1}) or ({2} and {3})",
     ];
     let body = Body::Map(vec![e("f", st("1*"))]);
+    // a multi-key identifier: and-ed with comparisons it widens a conjunction
+    let body_b = Body::Map(vec![e("g", st("*")), e("h", st("2"))]);
+    let mut atoms: Vec<&str> = atoms.to_vec();
+    atoms.truncate(n);
+    atoms.push("B");
+    let n = atoms.len();
     let mut out = vec![];
-    let mut c = 0usize;
-    for sh in shapes3 {
-        let slots = sh.matches('{').count();
-        let total = n.pow(slots as u32);
-        let stride = if level == 0 {
-            if slots >= 4 { 13 } else { 1 }
-        } else if slots >= 5 {
-            7
-        } else {
-            1
-        };
-        for k in 0..total {
-            c += 1;
-            if c % stride != 0 {
-                continue;
+    let push = |out: &mut Vec<RuleSpec>, cond: String| {
+        out.push(RuleSpec {
+            idents: vec![("A".into(), body.clone()), ("B".into(), body_b.clone())],
+            cond,
+        });
+    };
+    // conjunction of three (all combinations) or-ed with fixed pairs of disjuncts
+    let tails = [
+        ("int(f) == 1", "int(f) == 2"),
+        ("int(h) == 2", "A"),
+        ("int(g) >= 2", "int(f) == int(g)"),
+        ("B", "int(g) == 3"),
+    ];
+    for i in 0..n {
+        for j in 0..n {
+            for k in 0..n {
+                for (ti, (d, e2)) in tails.iter().enumerate() {
+                    if level == 0 && ti >= 2 && (i + j + k) % 2 == 1 {
+                        continue;
+                    }
+                    push(&mut out, format!("({} and {} and {}) or {} or {}", atoms[i], atoms[j], atoms[k], d, e2));
+                }
             }
+        }
+    }
+    // two conjunctions of two plus a third disjunct
+    for i in 0..n {
+        for j in 0..n {
+            for k in 0..n {
+                if level == 0 && (i * 7 + j * 3 + k) % 3 != 0 {
+                    continue;
+                }
+                push(&mut out, format!("({} and {}) or ({} and int(f) == 3) or int(g) == 1", atoms[i], atoms[j], atoms[k]));
+            }
+        }
+    }
+    for sh in shapes3.iter().skip(1) {
+        let slots = sh.matches('{').count();
+        if slots > 3 {
+            continue;
+        }
+        let total = n.pow(slots as u32);
+        for k in 0..total {
             let mut t = sh.to_string();
             let mut m = k;
             for i in 0..slots {
                 t = t.replace(&format!("{{{}}}", i), atoms[m % n]);
                 m /= n;
             }
-            out.push(RuleSpec {
-                idents: vec![("A".into(), body.clone())],
-                cond: t,
-            });
+            push(&mut out, t);
         }
     }
     out
